@@ -11,11 +11,13 @@ import (
 	"io"
 	"regexp"
 	"sort"
+	"strings"
 
 	"github.com/sdcio/cache/proto/cachepb"
 	"github.com/sdcio/data-server/pkg/cache"
 	schemaClient "github.com/sdcio/data-server/pkg/datastore/clients/schema"
 	"github.com/sdcio/data-server/pkg/tree"
+	jsonimp "github.com/sdcio/data-server/pkg/tree/importer/json"
 	"github.com/sdcio/data-server/pkg/utils"
 	sdcpb "github.com/sdcio/sdc-protos/sdcpb"
 	"google.golang.org/protobuf/proto"
@@ -66,8 +68,12 @@ type PathEvent struct {
 	PresentExists  bool     `json:"presentexists"`
 	PresentRunning []string `json:"presentrunning"`
 	// branch
-	Branch int32  `json:"branch"`
-	Panic  string `json:"panic"`
+	// import: element sequences of the leaves the tree holds after importing the entry as a configuration document
+	Imported [][]string `json:"imported"`
+	Expected [][]string `json:"expected"`
+	ImpErr   string     `json:"imperr"`
+	Branch   int32      `json:"branch"`
+	Panic    string     `json:"panic"`
 }
 
 type PathRunner struct {
@@ -108,6 +114,10 @@ func fromSdcpb(p *sdcpb.Path) []PElem {
 	return out
 }
 
+func sortPaths(ps [][]string) {
+	sort.Slice(ps, func(i, j int) bool { return strings.Join(ps[i], "\x00") < strings.Join(ps[j], "\x00") })
+}
+
 func nzs(s []string) []string {
 	if s == nil {
 		return []string{}
@@ -137,6 +147,12 @@ func (r *PathRunner) emit(e *PathEvent) error {
 	}
 	if e.Missing == nil {
 		e.Missing = [][]string{}
+	}
+	if e.Imported == nil {
+		e.Imported = [][]string{}
+	}
+	if e.Expected == nil {
+		e.Expected = [][]string{}
 	}
 	b, err := json.Marshal(e)
 	if err != nil {
@@ -236,6 +252,41 @@ func (r *PathRunner) Run(u *PathUniverse) error {
 				ev.Tree = fromSdcpb(tp)
 			})
 		}
+		if err := r.emit(ev); err != nil {
+			return err
+		}
+	}
+
+	// ---- A2. position in the tree when a list entry arrives as a configuration document (ImportConfig) ----
+	for i := range u.Nodes {
+		c := &u.Nodes[i]
+		if len(c.P) != 1 || len(c.P[0].Keys) == 0 {
+			continue
+		}
+		ev := &PathEvent{Ev: "import", B: u.ID, P: c.P, Strs: c.Strs}
+		obj := map[string]any{}
+		for _, kv := range c.P[0].Keys {
+			obj[kv[0]] = kv[1]
+			ev.Expected = append(ev.Expected, append(append([]string{}, c.Strs...), kv[0]))
+		}
+		doc := map[string]any{c.P[0].Name: []any{obj}}
+		guard("import", ev, func() {
+			tc := tree.NewTreeContext(tree.NewTreeCacheClient(ds.Name, r.W.Cache), scb, ds.Name)
+			root, err := tree.NewTreeRoot(ctx, tc)
+			if err != nil {
+				ev.ImpErr = err.Error()
+				return
+			}
+			if err := root.ImportConfig(ctx, jsonimp.NewJsonTreeImporter(doc), owner, 10); err != nil {
+				ev.ImpErr = err.Error()
+				return
+			}
+			for _, lv := range root.GetHighestPrecedence(false) {
+				ev.Imported = append(ev.Imported, lv.Update.GetPath())
+			}
+		})
+		sortPaths(ev.Imported)
+		sortPaths(ev.Expected)
 		if err := r.emit(ev); err != nil {
 			return err
 		}
